@@ -348,3 +348,30 @@ def hook_coverage():
                 bad.append("%s:%d: %s" % (rel, i, t[:100]))
             prev = t
     return bad
+
+
+# ---------------------------------------------------------------- constants named in the source
+
+def source_constants(limit=120):
+    """Integer literals of the crate's non-test source (thresholds, defaults, batch sizes ...): the generators add them and their
+    neighbours to their boundary pools, so that a value the CODE singles out is a value the inputs single out too."""
+    vals = set()
+    for root, _, files in os.walk(os.path.join(REPO, "src")):
+        if "/tests" in root:
+            continue
+        for f in files:
+            if not f.endswith(".rs") or f == "verif_sync.rs":
+                continue
+            try:
+                src = _strip_rust(open(os.path.join(root, f)).read())
+            except OSError:
+                continue
+            for m in re.finditer(r"(?<![\w.])(\d[\d_]*)(?:u64|usize|u32|u128|i64)?(?![\w.])", src):
+                try:
+                    v = int(m.group(1).replace("_", ""))
+                except ValueError:
+                    continue
+                if 2 <= v < (1 << 64):
+                    vals.add(v)
+    out = sorted(vals)[:limit]
+    return out
